@@ -23,7 +23,7 @@ METHODS = ["SGE", "BIPARTITE", "TREE", "BASE"]
 KF_TREE = "C01-tree-coefficients"
 KF_DUP = "C01-duplicate-terms"
 IMPORTS = ("From Coq Require Import List Arith Bool QArith. From PTN Require Import Tree.RTree SD.Model. "
-           "Import ListNotations. Local Close Scope Q_scope.")
+           "Import ListNotations.")
 TOL = 1e-9
 
 
@@ -154,6 +154,37 @@ def spy_state_diagram(captured):
 def finder(method):
     from pytreenet.ttno.state_diagram import TTNOFinder
     return getattr(TTNOFinder, method)
+
+
+def dense_ttno(ttno, ids):
+    """dense matrix of a TTNO read through nodes/tensors only (einsum with an optimised pairwise
+    order; util.dense_ttn contracts all indices at once, too slow for uncompressed diagrams).
+    rows = outputs in `ids` order, columns = inputs in `ids` order."""
+    import string
+    letters = iter(string.ascii_letters)
+    bond, outl, inl, ops, subs = {}, {}, {}, [], []
+
+    def bond_letter(edge):
+        if edge not in bond:
+            bond[edge] = next(letters)
+        return bond[edge]
+    for k in ids:
+        node = ttno.nodes[k]
+        t = ttno.tensors[k]
+        sub = ""
+        if not node.is_root():
+            sub += bond_letter((node.parent, k))
+        for c in node.children:
+            sub += bond_letter((k, c))
+        outl[k], inl[k] = next(letters), next(letters)
+        sub += outl[k] + inl[k]
+        assert len(sub) == t.ndim, (k, sub, t.shape)
+        ops.append(t)
+        subs.append(sub)
+    out = "".join(outl[k] for k in ids) + "".join(inl[k] for k in ids)
+    res = np.einsum(",".join(subs) + "->" + out, *ops, optimize="greedy")
+    d = int(np.prod(res.shape[:len(ids)]))
+    return res.reshape(d, d)
 
 
 # ------------------------------------------------------------------------------------------
@@ -584,7 +615,7 @@ class C01(Prop):
         scale = max(1.0, float(np.max(np.abs(ref))))
         ob["scale"] = scale
         try:
-            dense = util.dense_ttno(ttno, ids)
+            dense = dense_ttno(ttno, ids)
             ob["oracle_dev"] = float(np.max(np.abs(dense - ref))) if dense.shape == ref.shape else f"shape {dense.shape} vs {ref.shape}"
         except Exception as e:  # noqa
             dense = None
@@ -644,12 +675,12 @@ class C01(Prop):
             ex = ob.get("sd") if isinstance(ob, dict) else None
             have = bool(ex) and not ex.get("malformed")
             d = coq_sd(ex) if have else "sd_empty"
-            base = "Some (sd_canon t (sd_base t H))" if c["method"] == "BASE" else "None"
+            base = "Some (sd_canon t (sd_base t H))" if c["method"] == "BASE" else "(@None canon)"
             exprs.append(
                 f"(let t := {coq_tree(c)} in let d := {d} in "
                 f"match pad_ham idlab_std {coq_dims(c)} t {coq_uterms(c)} with "
-                f"| None => (false, [], false, false, None, None) "
-                f"| Some H => (true, map (fun tm => map (snd tm) (ids t)) H, sd_wf t d, sd_check t H d, sd_diff t H d, {base}) end)")
+                f"| Some H => (true, map (fun tm => map (snd tm) (ids t)) H, sd_wf t d, sd_check t H d, sd_diff t H d, {base}) "
+                f"| None => (false, [], false, false, None, @None canon) end)")
         vals = coq_eval(ctx, IMPORTS, exprs, shard=40, scope="nat_scope")
         # per-instance obligations: the exported diagram is well-formed and certified exact
         known = {k["id"] for k in load_known() if k.get("property") == self.id and k.get("status") == "known"}
@@ -728,11 +759,9 @@ class C01(Prop):
         pos, cnt = export_positions(ex, case)
         pre = preorder(case["children"])
         per_node = []
-        for v in pre:
-            per_node.append((v, [((label_code(lab), Fraction(lam)), sym_code(gam), [pos[x] for x in verts])
+        for v in pre:       # tuples shaped as Coq prints them: (label, lambda, gamma, bond indices)
+            per_node.append((v, [(label_code(lab), Fraction(lam), sym_code(gam), [pos[x] for x in verts])
                                  for _h, hv, lab, lam, gam, verts in ex["hes"] if hv == v]))
-        # shape the tuples as Coq prints them: (label, lam, gam, verts)
-        per_node = [(v, [(a[0], a[1], g, vs) for (a, g, vs) in hs]) for v, hs in per_node]
         return (per_node, [(c, cnt[c]) for c in pre[1:]])
 
     # ------------------------------------------------------------------------------ oracle
